@@ -12,9 +12,10 @@ META = {
               "1 or 2 observers (concrete-shape stored GET, symbolic tokens) from every state of resource dirty/partiallydirty, "
               "NOTIFY_CON/NON flag, observer dirty, non_cnt 0..5, con_active 0..nstart, nstart 1..3; S3: deregistration through "
               "coap_delete_observer, failed Confirmable notification, handler error response, Reset in reply to a notification "
-              "(real coap_dispatch), each followed by a further change + run - the S3 jobs use concrete tokens and message ids (which list "
+              "(real coap_dispatch), loss of a session holding two observations (coap_delete_observers), each followed by a further change + run - the S3 jobs use concrete tokens and message ids (which list "
               "element is selected is pointer-valued control flow), i.e. they are scripted executions whose memory/ownership "
-              "obligations are decided by the model checker, not universally quantified claims.",
+              "obligations are decided by the model checker, not universally quantified claims. S4: coap_check_notify_lkd from every "
+              "state of observe_pending, NOTIFY_CON/NON, non_cnt 0..5, con_active 0..nstart, nstart 1..3 (one resource, one dirty observer).",
     "outside": "registration (coap_add_observer: depends on a SHA-256 cache key computed in GnuTLS; not encoded in this version); "
                "more than 2 observers (induction over the subscriber loop); notifications larger than one block; persistence call-outs (C17); "
                "log level fixed to 0 in these jobs (the debug branch formats with snprintf)",
@@ -34,8 +35,11 @@ def jobs():
                           group="S1-notify", timeout=1500, est_gb=4,
                           desc="one notification run over %d observer(s): token, Observe value, CON/NON rule, pending when blocked" % nobs,
                           bounds={"observers": nobs}))
-    for pw, pn in ((0, "delete-observer"), (1, "failed-notify"), (2, "handler-error"), (3, "reset")):
+    for pw, pn in ((0, "delete-observer"), (1, "failed-notify"), (2, "handler-error"), (3, "reset"), (4, "session-lost")):
         js.append(Job("S3-deregister@%s" % pn, "C11/c11.c", "c11_s3_deregister", UNITS, extra_src=EXTRA, defines=["PATHWAY=%d" % pw] + CUT,
                       remove_bodies=RB, unwind=18, flags=FS, group="S3-deregister", timeout=1500, est_gb=4,
                       desc="deregistration by %s: entry gone, reference released once, no further notification" % pn, bounds={"pathway": pn}))
+    js.append(Job("S4-check-notify", "C11/c11.c", "c11_s4_check_notify", UNITS, extra_src=EXTRA, defines=CUT, remove_bodies=RB, unwind=18, flags=FS,
+                  timeout=1500, est_gb=4, desc="coap_check_notify_lkd: a deferred notification is retried and stays pending while the observer is still blocked",
+                  bounds={"observers": 1, "resources": 1}))
     return js
